@@ -141,13 +141,42 @@ def _ncalls(c):
     return Val.llen(c.gnew("call_log")) - Val.llen(c.gold("call_log"))
 
 
+_FLOCK = "_FutureResult__lock"
+from pyvc.monitor import SlotMonitor
+REGISTRY_TP0 = __import__("pyvc.contracts", fromlist=["REGISTRY"]).REGISTRY
+
+
+def fut_lock_inv(c, f, heap="old"):
+    """the future owns a lock object, distinct from its other parts; the slot log is a list"""
+    rd = c.old if heap == "old" else c.new
+    gh = c.gold if heap == "old" else c.gnew
+    lk = rd(f, _FLOCK)
+    return z3.And(V.is_obj(lk), Val.ref(lk) >= 0, Val.ref(lk) != Val.ref(f), Val.ref(lk) != Val.ref(rd(f, "_done_event")),
+                  V.is_list(gh("slot_log")), Val.llen(gh("slot_log")) >= 0)
+
+
+def _slot_n(c):
+    return Val.llen(c.gnew("slot_log")) - Val.llen(c.gold("slot_log"))
+
+
+def _slot_at(c, k, part):
+    """part 0/1: callback / extra seen when the k-th critical section of this call began; 2/3: what it left"""
+    return z3.Select(Val.tat(z3.Select(Val.lat(c.gnew("slot_log")), Val.llen(c.gold("slot_log")) + k)), part)
+
+
+def _slot_prefix_kept(c):
+    return z3.Implies(z3.And(FJ >= 0, FJ < Val.llen(c.gold("slot_log"))),
+                      z3.Select(Val.lat(c.gnew("slot_log")), FJ) == z3.Select(Val.lat(c.gold("slot_log")), FJ))
+
+
 Contract(FR_ + ".__init__", kinds={"logger": "val"},
          ensures=[("not_done_no_callback", lambda c: z3.And(
              c.returns, z3.Not(_done(c, c.a.self)), V.is_none(c.new(c.a.self, _CB)), V.is_none(c.new(c.a.self, _EX)),
-             c.fresh_obj(c.new(c.a.self, "_done_event"))), ("C16", "C09"))],
-         modifies=[Field(lambda c: c.a.self, f) for f in ("_logger", "_done_event", _CB, _EX)] +
+             c.fresh_obj(c.new(c.a.self, "_done_event")), c.fresh_obj(c.new(c.a.self, _FLOCK))), ("C16", "C09"))],
+         modifies=[Field(lambda c: c.a.self, f) for f in ("_logger", "_done_event", _CB, _EX, _FLOCK)] +
                   [Fresh(_E + f) for f in ("event", "data", "exception")] + [Fresh("_flag")],
          props=("C16",))
+REGISTRY_TP0[FR_ + ".__init__"].monitor = SlotMonitor(constructor=True)
 
 Contract(FR_ + ".done", requires=[("future", lambda c: fut_inv(c, c.a.self))],
          ensures=[("reports_completion", lambda c: z3.And(c.returns, c.ret == V.VBool(_done(c, c.a.self, "old"))), ("C16", "C09"))],
@@ -168,13 +197,18 @@ Contract(FR_ + ".result", requires=[("future", lambda c: fut_inv(c, c.a.self))],
          modifies=[Field(lambda c: c.old(c.old(c.a.self, "_done_event"), _E + "event"), "_flag"), Fresh("args")],
          props=("C16",))
 
-Contract(FR_ + ".__notify", requires=[("future", lambda c: fut_inv(c, c.a.self))],
+_SLOTW = [Field(lambda c: c.a.self, _CB), Field(lambda c: c.a.self, _EX), Ghost("slot_log")]
+
+Contract(FR_ + ".__notify", requires=[("future", lambda c: fut_inv(c, c.a.self)), ("lock", lambda c: fut_lock_inv(c, c.a.self))],
          ensures=[
-             ("no_callback_no_call", lambda c: implies(V.is_none(c.old(c.a.self, _CB)), z3.And(
+             # the callback is consumed: read and cleared in ONE critical section, so no other thread can consume it too
+             ("consumes_the_registration_atomically", lambda c: z3.And(
+                 _slot_n(c) == 1, V.is_none(_slot_at(c, 0, 2)), V.is_none(_slot_at(c, 0, 3)), _slot_prefix_kept(c)), ("C16",)),
+             ("empty_slot_no_call", lambda c: implies(V.is_none(_slot_at(c, 0, 0)), z3.And(
                  c.returns, c.gnew("call_log") == c.gold("call_log"), c.gnew("env_outcomes") == c.gold("env_outcomes"))), ("C16",)),
-             ("callback_called_once_with_outcome", lambda c: implies(z3.Not(V.is_none(c.old(c.a.self, _CB))), z3.And(
+             ("consumed_callback_called_once_with_outcome", lambda c: implies(z3.Not(V.is_none(_slot_at(c, 0, 0))), z3.And(
                  c.gnew("call_log") == _appended(c.gold("call_log"), tup(
-                     c.old(c.a.self, _CB), tup(_dat(c, c.a.self, "old"), _exn(c, c.a.self, "old"), c.old(c.a.self, _EX)),
+                     _slot_at(c, 0, 0), tup(_dat(c, c.a.self, "old"), _exn(c, c.a.self, "old"), _slot_at(c, 0, 1)),
                      V.empty_dict())),
                  Val.llen(c.gnew("env_outcomes")) == Val.llen(c.gold("env_outcomes")) + 1,
                  z3.Implies(z3.And(FJ >= 0, FJ < Val.llen(c.gold("env_outcomes"))),
@@ -185,20 +219,33 @@ Contract(FR_ + ".__notify", requires=[("future", lambda c: fut_inv(c, c.a.self))
                  _done(c, c.a.self) == _done(c, c.a.self, "old")), ("C16",)),
              ("logs_stay_aligned", lambda c: Val.llen(c.gnew("env_outcomes")) == Val.llen(c.gnew("call_log")), ("C16",)),
          ],
-         modifies=ENVG, props=("C16",))
+         modifies=ENVG + _SLOTW, props=("C16",))
+REGISTRY_TP0[FR_ + ".__notify"].monitor = SlotMonitor()
 
-Contract(FR_ + ".set_callback", requires=[("future", lambda c: fut_inv(c, c.a.self))],
+_IS_SET = ED + ".is_set"
+_NOTIFY = FR_ + ".__notify"
+
+Contract(FR_ + ".set_callback", requires=[("future", lambda c: fut_inv(c, c.a.self)), ("lock", lambda c: fut_lock_inv(c, c.a.self))],
          ensures=[
-             ("registration_stored", lambda c: z3.And(c.new(c.a.self, _CB) == c.a.method, c.new(c.a.self, _EX) == c.a.extra), ("C16",)),
-             ("finished_task_notifies_immediately", lambda c: implies(
-                 z3.And(_done(c, c.a.self, "old"), z3.Not(V.is_none(c.a.method))),
-                 z3.And(c.returns, _ncalls(c) == 1,
-                        _log_at(c, 0) == tup(c.a.method, tup(_dat(c, c.a.self, "old"), _exn(c, c.a.self, "old"), c.a.extra),
-                                             V.empty_dict()))), ("C16",)),
+             ("registration_stored_atomically", lambda c: z3.And(
+                 _slot_n(c) >= 1, _slot_at(c, 0, 2) == c.a.method, _slot_at(c, 0, 3) == c.a.extra, _slot_prefix_kept(c)), ("C16",)),
+             ("finished_task_is_notified_at_once", lambda c: implies(
+                 _done(c, c.a.self, "old"), z3.And(c.returns, _slot_n(c) == 2, V.is_none(_slot_at(c, 1, 2)),
+                                                   implies(V.is_none(_slot_at(c, 1, 0)), _ncalls(c) == 0),
+                                                   implies(z3.Not(V.is_none(_slot_at(c, 1, 0))), z3.And(
+                                                       _ncalls(c) == 1,
+                                                       _log_at(c, 0) == tup(_slot_at(c, 1, 0),
+                                                                            tup(_dat(c, c.a.self, "old"), _exn(c, c.a.self, "old"),
+                                                                                _slot_at(c, 1, 1)), V.empty_dict()))))), ("C16",)),
              ("pending_task_defers_notification", lambda c: implies(z3.Not(_done(c, c.a.self, "old")),
-                                                                    z3.And(c.returns, _ncalls(c) == 0)), ("C16",)),
+                                                                    z3.And(c.returns, _ncalls(c) == 0, _slot_n(c) == 1)), ("C16",)),
          ],
-         modifies=[Field(lambda c: c.a.self, _CB), Field(lambda c: c.a.self, _EX)] + ENVG, props=("C16",))
+         # ordering: completion is looked at only AFTER the registration is in place (otherwise a completion between the
+         # look and the store would never notify this registration)
+         asserts=[("completion_checked_after_the_registration_is_stored", _IS_SET,
+                   lambda pc, L: Val.llen(L.ghost("slot_log")) == Val.llen(z3.Const("G0!slot_log", Val)) + 1, ("C16",))],
+         modifies=_SLOTW + ENVG, props=("C16",))
+REGISTRY_TP0[FR_ + ".set_callback"].monitor = SlotMonitor()
 
 
 def _task_call(c):
@@ -208,7 +255,7 @@ def _task_call(c):
 
 
 Contract(FR_ + ".execute",
-         requires=[("future", lambda c: fut_inv(c, c.a.self)),
+         requires=[("future", lambda c: fut_inv(c, c.a.self)), ("lock", lambda c: fut_lock_inv(c, c.a.self)),
                    ("task", lambda c: z3.And(z3.Or(V.is_none(c.a.args), V.is_list(c.a.args), V.is_tuple(c.a.args)),
                                              z3.Or(V.is_none(c.a.kwargs), V.is_dict(c.a.kwargs))))],
          ensures=[
@@ -219,16 +266,22 @@ Contract(FR_ + ".execute",
              ("exception_is_the_very_object_and_propagates", lambda c: implies(c.raised, z3.And(
                  _done(c, c.a.self), _outcome_at(c, 0) == tup(V.I(1), c.exc), _exn(c, c.a.self) == c.exc,
                  V.is_none(_dat(c, c.a.self)))), ("C09", "C16")),
-             ("callback_notified_once_after_completion", lambda c: z3.If(
-                 V.is_none(c.old(c.a.self, _CB)), _ncalls(c) == 1,
-                 z3.And(_ncalls(c) == 2,
-                        _log_at(c, 1) == tup(c.old(c.a.self, _CB), tup(_dat(c, c.a.self), _exn(c, c.a.self), c.old(c.a.self, _EX)),
-                                             V.empty_dict()))), ("C16",)),
+             ("registered_callback_consumed_once_after_completion", lambda c: z3.And(
+                 _slot_n(c) == 1, V.is_none(_slot_at(c, 0, 2)), _slot_prefix_kept(c),
+                 z3.If(V.is_none(_slot_at(c, 0, 0)), _ncalls(c) == 1,
+                       z3.And(_ncalls(c) == 2,
+                              _log_at(c, 1) == tup(_slot_at(c, 0, 0), tup(_dat(c, c.a.self), _exn(c, c.a.self), _slot_at(c, 0, 1)),
+                                                   V.empty_dict())))), ("C16",)),
          ],
+         # ordering: the outcome is published (event set) BEFORE the registration is consumed, so a registration stored
+         # later sees the completion itself
+         asserts=[("completion_published_before_the_callback_is_consumed", _NOTIFY,
+                   lambda pc, L: V.truthy(L.field(L.field(L.field0(L.v0("self"), "_done_event"), _E + "event"), "_flag")), ("C16",))],
          modifies=[Field(lambda c: c.old(c.a.self, "_done_event"), _E + "data"),
                    Field(lambda c: c.old(c.a.self, "_done_event"), _E + "exception"),
-                   Field(lambda c: c.old(c.old(c.a.self, "_done_event"), _E + "event"), "_flag")] + ENVG,
+                   Field(lambda c: c.old(c.old(c.a.self, "_done_event"), _E + "event"), "_flag")] + ENVG + _SLOTW,
          props=("C09", "C16"))
+REGISTRY_TP0[FR_ + ".execute"].monitor = SlotMonitor()
 
 
 # --- ThreadPool ------------------------------------------------------------------------------------------------------------------
@@ -390,7 +443,7 @@ Contract(
     ],
     modifies=_POOLW + [Ghost(g) for g in ("pool_accepted", "q_items", "q_puts", "threads_started", "thread_start_failures", "call_log", "env_calls")] +
              [Field(lambda c: c.old(c.a.self, "_queue"), "unfinished_tasks")] +
-             [Fresh(f) for f in ("_logger", "_done_event", _CB, _EX, _E + "event", _E + "data", _E + "exception", "_flag",
+             [Fresh(f) for f in ("_logger", "_done_event", _CB, _EX, _FLOCK, _E + "event", _E + "data", _E + "exception", "_flag",
                                  "name", "daemon", "args")],
     types={"return": FR_},
     props=("C09", "C04", "C12"),
@@ -535,7 +588,9 @@ REGISTRY_TP[POOL + ".__run"].monitor = PoolMonitor(worker=True)
 import jsonrpclib.SimpleJSONRPCServer as _S
 PSRV = "jsonrpclib.SimpleJSONRPCServer.PooledJSONRPCServer"
 RPOOL = "_PooledJSONRPCServer__request_pool"
+SERVING = "_PooledJSONRPCServer__serving"
 FIELDS.declare(PSRV, RPOOL, type=POOL)
+FIELDS.declare(PSRV, SERVING)
 
 
 def _psrv_inv(c):
@@ -549,7 +604,11 @@ def _psrv_inv(c):
     c2.a = a
     return z3.And(V.is_obj(p), Val.ref(p) >= 0, Val.ref(p) < ALLOC0, Val.ref(p) != Val.ref(c.a.self),
                   C.subclass(C.cls_of(Val.ref(p)), TP.ThreadPool), pool_inv(c2, p),
-                  V.is_list(c.gold("shutdown_log")), Val.llen(c.gold("shutdown_log")) >= 0)
+                  V.is_list(c.gold("shutdown_log")), Val.llen(c.gold("shutdown_log")) >= 0,
+                  # the published flag is raised only between "about to serve" and "served": established by serve_forever
+                  # (raised before the loop, lowered on every exit), used by server_close
+                  V.is_bool(c.old(c.a.self, SERVING)),
+                  implies(c.old(c.a.self, SERVING) == V.B(True), c.gold("serving")))
 
 
 Contract(
@@ -564,8 +623,20 @@ Contract(
     modifies=[Field(lambda c: c.old(c.a.self, RPOOL), f) for f in (NB, NBA, THREADS, PEND, "_thread_id")] +
              [Ghost(g) for g in ("pool_accepted", "q_items", "q_puts", "threads_started", "thread_start_failures", "call_log", "env_calls")] +
              [Field(lambda c: c.old(c.old(c.a.self, RPOOL), "_queue"), "unfinished_tasks")] +
-             [Fresh(f) for f in ("_logger", "_done_event", _CB, _EX, _E + "event", _E + "data", _E + "exception", "_flag",
+             [Fresh(f) for f in ("_logger", "_done_event", _CB, _EX, _FLOCK, _E + "event", _E + "data", _E + "exception", "_flag",
                                  "name", "daemon", "args")],
+    props=("C12",),
+)
+
+Contract(
+    PSRV + ".serve_forever",
+    requires=[("server", _psrv_inv)],
+    ensures=[("serving_flag_lowered_on_every_exit", lambda c: c.new(c.a.self, SERVING) == V.B(False), ("C12",)),
+             ("serves_once", lambda c: z3.And(
+                 Val.llen(c.gnew("shutdown_log")) == Val.llen(c.gold("shutdown_log")) + 1,
+                 z3.Select(Val.lat(c.gnew("shutdown_log")), Val.llen(c.gold("shutdown_log"))) == V.S("served"),
+                 z3.Not(c.gnew("serving"))), ("C12",))],
+    modifies=[Field(lambda c: c.a.self, SERVING), Ghost("serving"), Ghost("shutdown_log")],
     props=("C12",),
 )
 
@@ -573,11 +644,16 @@ Contract(
     PSRV + ".server_close",
     # C12: "server_close() alone when it never served" is allowed: no precondition on ghost `serving`
     requires=[("server", _psrv_inv)],
-    ensures=[("closes_in_order", lambda c: implies(c.returns, z3.And(
-        Val.llen(c.gnew("shutdown_log")) == Val.llen(c.gold("shutdown_log")) + 2,
-        z3.Select(Val.lat(c.gnew("shutdown_log")), Val.llen(c.gold("shutdown_log"))) == V.S("shutdown"),
-        z3.Select(Val.lat(c.gnew("shutdown_log")), Val.llen(c.gold("shutdown_log")) + 1) == V.S("socket_closed"),
-        c.new(c.old(c.old(c.a.self, RPOOL), "_done_event"), "_flag") == V.B(True))), ("C12",))],
+    ensures=[("closes_in_order", lambda c: implies(c.returns, (lambda n0, was: z3.And(
+        implies(was, z3.And(Val.llen(c.gnew("shutdown_log")) == n0 + 2,
+                            z3.Select(Val.lat(c.gnew("shutdown_log")), n0) == V.S("shutdown"),
+                            z3.Select(Val.lat(c.gnew("shutdown_log")), n0 + 1) == V.S("socket_closed"))),
+        implies(z3.Not(was), z3.And(Val.llen(c.gnew("shutdown_log")) == n0 + 1,
+                                    z3.Select(Val.lat(c.gnew("shutdown_log")), n0) == V.S("socket_closed"))),
+        c.new(c.old(c.old(c.a.self, RPOOL), "_done_event"), "_flag") == V.B(True)))(
+            Val.llen(c.gold("shutdown_log")), c.old(c.a.self, SERVING) == V.B(True))), ("C12",)),
+             ("the_loop_is_not_left_running", lambda c: implies(c.returns, implies(c.old(c.a.self, SERVING) == V.B(True),
+                                                                                    z3.Not(c.gnew("serving")))), ("C12",))],
     modifies=[Field(lambda c: c.old(c.a.self, RPOOL), f) for f in (NB, NBA, THREADS, PEND, "_thread_id")] +
              [Field(lambda c: c.old(c.old(c.a.self, RPOOL), "_done_event"), "_flag"),
               Field(lambda c: c.old(c.old(c.a.self, RPOOL), "_queue"), "unfinished_tasks")] +
